@@ -4,7 +4,7 @@ from sa import generic
 from sa.algebra import AlgebraError, parse_expr, Translator
 from sa.extract import single_assignments, inline, names_in
 from sa.srcmodel import own_nodes, dotted, positional_params, func_params, bind_call
-from sa.tags import TagAnalysis, run_tags, MIXED
+from sa.tags import FnRef, TagAnalysis, run_tags, MIXED
 from sa.report import AnalysisError
 
 EXPLANATION = (
@@ -77,8 +77,50 @@ def space_call_rule(prog, m, objective_spaces, recorder):
         if last in ('set_lower_bounds', 'set_upper_bounds'):
             recorder.append(('nlopt_bounds', e, a0))
             return None
+        # a helper of the module that is not one of the functions above: the tag it returns for these argument tags
+        callee = None
+        try:
+            r_ = prog.resolve_expr(m, e.func)
+            callee = r_[1] if r_ and r_[0] == 'func' else None
+        except Exception:
+            callee = None
+        depth = getattr(an, '_summary_depth', 0)
+        if callee is not None and depth < 3 and not callee._qualname.startswith('_object_func') and len(list(own_nodes(callee))) < 60:
+            pp = positional_params(callee)
+            seeds = {p_: t_ for p_, t_ in zip(pp, args)}
+            seeds.update({k_: v_ for k_, v_ in kws.items() if k_ in pp})
+            try:
+                an2 = TagAnalysis(callee, seeds=seeds, call_rule=rule, fnref_rule=make_fnref_rule(prog, callee._module))
+                an2._summary_depth = depth + 1
+                from sa.flow import Engine
+                Engine(an2).run_function(callee, an2.initial())
+                t = None
+                for (_st, t_, _s) in an2.returns:
+                    t = an2.jt(t, t_)
+                return t
+            except Exception:
+                return None
         return None
     return rule
+
+
+def make_fnref_rule(prog, m):
+    """which expressions denote functions (so that a variable assigned from them is a function-valued variable)"""
+    def fnref(e, s):
+        d = dotted(e)
+        if not d:
+            return None
+        root = d.split('.')[0]
+        if root in s:
+            return None
+        if root in ('numpy', 'np', 'math') and _last(d) in ('log', 'exp', 'log10', 'log2', 'asarray', 'array'):
+            return d
+        try:
+            r_ = prog.resolve_expr(m, e)
+        except Exception:
+            return None
+        return d if r_ and r_[0] == 'func' else None
+    return fnref
 
 
 def objective_space(prog, m, fn, depth=0):
@@ -148,6 +190,37 @@ class Prov(TagAnalysis):
         return t
 
 
+def objective_expr(fn, node):
+    """the function an optimiser call minimises: through a local name and through functools.partial(f, **settings)"""
+    singles = single_assignments(fn)
+    for _ in range(4):
+        if isinstance(node, ast.Name) and node.id in singles:
+            node = singles[node.id]
+            continue
+        if isinstance(node, ast.Call) and _last(dotted(node.func)) == 'partial' and node.args:
+            node = node.args[0]
+            continue
+        break
+    return node
+
+
+def objective_settings(fn, call):
+    """(slot -> expression) of the settings an optimiser call hands to its objective: the `args=` tuple in the order of the objective's
+    parameters after the first, or the keywords of a functools.partial; None when neither is present"""
+    singles = single_assignments(fn)
+    kw = {k.arg: k.value for k in call.keywords}
+    node = call.args[0] if call.args else None
+    part = None
+    for _ in range(4):
+        if isinstance(node, ast.Name) and node.id in singles:
+            node = singles[node.id]
+            continue
+        if isinstance(node, ast.Call) and _last(dotted(node.func)) == 'partial' and node.args:
+            part = node
+        break
+    return kw, part
+
+
 def check_entry(rep, prog, m, fn, worlds):
     q = fn._qualname
     rel = m.rel
@@ -155,6 +228,7 @@ def check_entry(rep, prog, m, fn, worlds):
     params = func_params(fn)
 
     def objective_spaces(node):
+        node = objective_expr(fn, node)
         if node is None:
             return None
         r = prog.resolve_expr(m, node, scope=fn)
@@ -166,7 +240,7 @@ def check_entry(rep, prog, m, fn, worlds):
         wtxt = ('[%s]' % ','.join('%s=%s' % kv for kv in sorted(world.items()))) if world else ''
         rec = []
         seeds = {p: 'nat' for p in ('p0', 'lower_bound', 'upper_bound', 'fixed_params', 'grid') if p in params}
-        an, exits = run_tags(fn, seeds=seeds, world=world, call_rule=space_call_rule(prog, m, objective_spaces, rec))
+        an, exits = run_tags(fn, seeds=seeds, world=world, call_rule=space_call_rule(prog, m, objective_spaces, rec), fnref_rule=make_fnref_rule(prog, m))
         optcalls = [r for r in rec if r[0] == 'optcall']
         nlo = [r for r in rec if r[0] == 'nlopt_optimize']
         if not optcalls and not nlo:
@@ -250,7 +324,7 @@ def check_entry(rep, prog, m, fn, worlds):
             for kind, e, args, kws in bounds_seen:
                 if kind == 'optkw':
                     allp = frozenset()
-                    for x in list(args[1:]) + list(kws.values()):
+                    for x in list(args) + list(kws.values()):
                         if x:
                             allp = allp | x
                     for b in reach:
@@ -340,21 +414,32 @@ def check_args_tuple(rep, prog, m, fn):
     singles = single_assignments(fn)
     for n in own_nodes(fn):
         if isinstance(n, ast.Call) and (dotted(n.func) or '').startswith('scipy.optimize.'):
-            kw = {k.arg: k.value for k in n.keywords}
-            if 'args' not in kw or not n.args:
+            kw, part = objective_settings(fn, n)
+            if ('args' not in kw and part is None) or not n.args:
                 continue
-            tup = inline(kw['args'], singles, depth=1)
-            if not isinstance(tup, ast.Tuple):
-                raise AnalysisError('args of the optimiser call in %s is not a literal tuple' % q)
-            r = prog.resolve_expr(m, n.args[0], scope=fn)
+            r = prog.resolve_expr(m, objective_expr(fn, n.args[0]), scope=fn)
             if not (r and r[0] == 'func'):
                 raise AnalysisError('objective of %s does not resolve' % q)
             base = base_objective(prog, r[1]._module, r[1])
             slots = positional_params(base)[1:]
-            rep.ob('R-ARGS', '%s args' % q, len(tup.elts) <= len(slots), '%d values for %d slots of %s' % (len(tup.elts), len(slots), base._qualname),
-                   m.rel, n.lineno, what='args tuple length')
+            if part is not None:
+                # functools.partial(objective, slot=value, ...): the settings by name, in the order of the objective's parameters
+                if len(part.args) != 1 or 'args' in kw:
+                    raise AnalysisError('objective of %s is bound positionally and by keyword: not recognised' % q)
+                pk = {k.arg: k.value for k in part.keywords}
+                unknown = [k_ for k_ in pk if k_ not in slots]
+                rep.ob('R-ARGS', '%s args' % q, not unknown, ('keywords %s are not parameters of %s' % (unknown, base._qualname)) if unknown else '%d settings bound by name for %d slots of %s' % (len(pk), len(slots), base._qualname),
+                       m.rel, n.lineno, what='args tuple length')
+                pairs = [(slot, pk[slot]) for slot in slots if slot in pk]
+            else:
+                tup = inline(kw['args'], singles, depth=1)
+                if not isinstance(tup, ast.Tuple):
+                    raise AnalysisError('args of the optimiser call in %s is not a literal tuple' % q)
+                rep.ob('R-ARGS', '%s args' % q, len(tup.elts) <= len(slots), '%d values for %d slots of %s' % (len(tup.elts), len(slots), base._qualname),
+                       m.rel, n.lineno, what='args tuple length')
+                pairs = list(zip(slots, tup.elts))
             native_bounds = kw.get('bounds') is not None
-            for slot, el in zip(slots, tup.elts):
+            for slot, el in pairs:
                 if isinstance(el, ast.Name):
                     ok = el.id == slot or (slot == 'store_thetas' and el.id == 'full_output')
                     det = 'slot %s receives variable %s' % (slot, el.id)
@@ -892,7 +977,28 @@ def run(rep, prog, tier):
             if _last(fnm) == '_object_func':
                 got.append((e, args[0] if args else None))
             return None
-        run_tags(f, seeds={positional_params(f)[0]: 'log' if lo else 'nat'}, world={'log_opt': lo}, call_rule=rule)
+        # what the nested objective closes over: the tags of opt's locals where f is defined (a function-valued local such as
+        # `from_opt_scale = np.exp` is visible inside f)
+        closure = {}
+
+        def observe(node, _t, state, closure=closure):
+            if node is f:
+                closure.update({k_: v_ for k_, v_ in state.items() if v_ is not None})
+        try:
+            run_tags(optf, seeds={p_: 'nat' for p_ in ('p0', 'lower_bound', 'upper_bound', 'fixed_params') if p_ in func_params(optf)}, world={'log_opt': lo},
+                     call_rule=space_call_rule(prog, nm, lambda node: None, []), fnref_rule=make_fnref_rule(prog, nm), observe=observe)
+        except AnalysisError:
+            pass
+        seeds_f = {k_: v_ for k_, v_ in closure.items() if isinstance(v_, FnRef)}
+        seeds_f[positional_params(f)[0]] = 'log' if lo else 'nat'
+
+        def rule_f(an, e, args, kws, s, rule=rule):
+            r_ = rule(an, e, args, kws, s)
+            if r_ is None and _last(dotted(e.func) or '') not in ('exp', 'log', '_object_func'):
+                # a helper of the module (the identity transform, say): its summary
+                return space_call_rule(prog, nm, lambda node: None, [])(an, e, args, kws, s)
+            return r_
+        run_tags(f, seeds=seeds_f, world={'log_opt': lo}, call_rule=rule_f, fnref_rule=make_fnref_rule(prog, nm))
         if not got:
             raise AnalysisError('anchor vanished: opt.f does not call _object_func')
         for e, t in got:
